@@ -800,10 +800,10 @@ func (env *SpecEnv) evalCall(st, old *State, x *ast.CallExpr) Val {
 		v := arg(0)
 		t := env.resolveType(x.Args[1])
 		return Val{c.unbox(v.T, t), t}
-	case "held":
+	case "held", "heldw":
 		key, idx := env.specLockKey(st, old, x.Args[0])
-		h, cond, _ := c.lockHeldFor(st, key)
-		if !h {
+		h, cond, mode := c.lockHeldFor(st, key)
+		if !h || (name == "heldw" && mode != 1) {
 			return Val{False, boolT}
 		}
 		t := True
@@ -1149,6 +1149,17 @@ func (env *SpecEnv) havocTarget(st *State, e ast.Expr, where string) {
 			return
 		}
 		c.havocArgContents(st, v)
+	case *ast.MapType:
+		// map[K]V : contents of every map of that type
+		if t := env.resolveType(x); t != nil {
+			if mt, ok := t.(*types.Map); ok {
+				hn, vn, ln, ks, vs := c.mapHeaps(mt)
+				for _, hs := range [][2]string{{hn, ArraySort(SInt, ArraySort(ks, SBool))}, {vn, ArraySort(SInt, ArraySort(ks, vs))}, {ln, ArraySort(SInt, SInt)}} {
+					h := u.heapGet(st, hs[0], hs[1])
+					u.heapSet(st, hs[0], u.fresh("modall_map", h.Sort))
+				}
+			}
+		}
 	default:
 		env.errf("modifies: unsupported target %s", exprString(e))
 	}
@@ -1304,9 +1315,15 @@ func (c *ExecCtx) runGhostAnchors(st *State, s ast.Stmt, when string) {
 				g.used = true
 				c.execGhost(st, g, s.Pos())
 			}
+		case strings.HasPrefix(an, "dec(") && when == "after":
+			target := strings.TrimSuffix(strings.TrimPrefix(an, "dec("), ")")
+			if ids, ok := s.(*ast.IncDecStmt); ok && ids.Tok == token.DEC && exprString(ids.X) == target {
+				g.used = true
+				c.execGhost(st, g, s.Pos())
+			}
 		case strings.HasPrefix(an, "inc(") && when == "after":
 			target := strings.TrimSuffix(strings.TrimPrefix(an, "inc("), ")")
-			if ids, ok := s.(*ast.IncDecStmt); ok && exprString(ids.X) == target {
+			if ids, ok := s.(*ast.IncDecStmt); ok && ids.Tok == token.INC && exprString(ids.X) == target {
 				g.used = true
 				c.execGhost(st, g, s.Pos())
 			}
